@@ -197,6 +197,7 @@ TryNextBlock:
 	p.Header = make(map[string]string)
 	nextIsContinuation := false
 	var lastKey string
+	var lastValue bytes.Buffer // value of lastKey while its line is still arriving in pieces
 
 	// Read headers
 	for {
@@ -207,7 +208,14 @@ TryNextBlock:
 			return
 		}
 		if isContinuation {
-			p.Header[lastKey] += string(line)
+			// A header line longer than the reader's buffer arrives in pieces.
+			// Collect them and store the value once the line is complete; appending
+			// to the map entry piece by piece re-copies the whole value every time
+			// (quadratic in the length of the line).
+			lastValue.Write(line)
+			if !nextIsContinuation {
+				p.Header[lastKey] = lastValue.String()
+			}
 			continue
 		}
 		line = bytes.TrimSpace(line)
@@ -221,6 +229,8 @@ TryNextBlock:
 		}
 		lastKey = string(line[:i])
 		p.Header[lastKey] = string(line[i+2:])
+		lastValue.Reset()
+		lastValue.Write(line[i+2:])
 	}
 
 	p.lReader.in = r
